@@ -8,7 +8,7 @@
 From Coq Require Import NArith List Bool.
 From Coq.Strings Require Import Byte.
 From LOF Require Import Base.Bytes Model.Wire Model.Build Spec.Walk Proofs.WireP Proofs.BuildP Proofs.NormP Proofs.WalkP
-  Proofs.WalkAllP Proofs.WalkMsgP.
+  Proofs.WalkAllP Proofs.WalkMsgP Model.BuildSw Proofs.HelloBaseP Proofs.HelloP.
 Import ListNotations.
 Open Scope N_scope.
 
@@ -47,3 +47,13 @@ Theorem C02_actions_aligned : forall a, wf_a a = true ->
   consistent (build_a a) = true /\ size (build_a a) mod 8 = 0.
 Proof. exact build_a_ok. Qed.
 Print Assumptions C02_actions_aligned.
+
+(* ---- hello with any list of version-bitmap elements ([hello_tree xid es]: the elements and
+   their bitmaps are exported fields, so a controller can build any such list): each element is
+   padded to 64 bits and its length field counts header and bitmaps (fix D46) ---- *)
+Theorem C02_hello_walk : forall xid es, bitmaps_ok es = true -> xid < 4294967296 ->
+  spec_decode (fst (marshal (hello_tree xid es))) = Some (snd (marshal (hello_tree xid es))).
+Proof. exact hello_walk. Qed.
+Print Assumptions C02_hello_walk.
+Theorem C02_hello_meets_hypothesis : bitmaps_ok [[18]; [1; 2]; []; [4294967295; 0; 7]] = true.
+Proof. exact hello_example_wf. Qed.
